@@ -1,9 +1,9 @@
 #!/bin/bash
-# confirm_mut.sh CXX k : copy /tmp/wt_CXX/_mutk to /verif/seeded/CXX-mk and confirm it in a fresh scratch worktree:
+# confirm_mut.sh CXX k [srcdir] : copy /tmp/wt_CXX/_mutk to /verif/seeded/CXX-mk and confirm it in a fresh scratch worktree:
 #  demo passes on original, fails with the patch, and the baseline test-suite outcome is unchanged.
 set -u
 P=$1; K=$2
-SRC=/tmp/wt_$P/_mut$K
+SRC=${3:-/tmp/wt_$P/_mut$K}
 DST=/verif/seeded/$P-m$K
 mkdir -p $DST
 cp $SRC/patch.diff $SRC/demo.py $SRC/meta.json $DST/ 2>/dev/null
